@@ -242,6 +242,13 @@ class Gen:
                 trs.reverse()
             vg = TYPES[tk][3][0][0]
             out.append(("ambiguous dot call: m is a method of both %s and %s" % (TRAITS[trs[0]][1], TRAITS[trs[1]][1]), "fn gamb[T: %s + %s](x: T) -> string { x.m(1) }\nfn main() { let x: %s = %s; string_println(gamb(x)) }" % (TRAITS[trs[0]][1], TRAITS[trs[1]][1], TYPES[tk][1], vg)))
+        # a trait object of one trait is not a receiver for the like-named method of another trait
+        for (trk, tk) in r.sample(sorted(self.impls), min(3, len(self.impls))):
+            others = [o for o in TRAITS if o != trk]
+            for o in others:
+                vg = TYPES[tk][3][0][0]
+                out.append(("%s::m called on a `dyn %s` receiver (no impl of the former for the trait object)" % (TRAITS[o][1], TRAITS[trk][1]),
+                            "fn main() { let x: %s = %s; let d: dyn %s = x; string_println(%s::m(d, 1)) }" % (TYPES[tk][1], vg, TRAITS[trk][1], TRAITS[o][1])))
         trs = r.sample(sorted(TRAITS), 2)
         out.append(("UFCS through a bound that does not name the trait", "fn gnb[T: %s](x: T) -> string { %s::m(x, 1) }\nfn main() { () }" % (TRAITS[trs[0]][1], TRAITS[trs[1]][1])))
         return [(why, {"LibA/lib.gom": self.package("LibA"), "LibB/lib.gom": self.package("LibB"), "main.gom": base + body + "\n"}) for why, body in out]
